@@ -52,6 +52,7 @@ func genStore(t *rapid.T) string {
 	return rapid.SampledFrom([]string{
 		"running", "candidate", "startup", "running", "candidate",
 		"my-store", "store_2", "x.y", "données", "оперативный", "a",
+		"Candidate-B", "MyStore", "STAGING", "Données", "Z",
 	}).Draw(t, "store")
 }
 
@@ -135,7 +136,15 @@ func gen(t *rapid.T) Case {
 			op.Defaults = rapid.SampledFrom([]string{"", "", "report-all", "report-all-tagged", "trim", "explicit"}).Draw(t, "defaults")
 		case "edit-config":
 			op.Target = genStore(t)
-			op.Config = "<config>" + genFragment(t) + "</config>"
+			// the config root as callers write it: bare, with namespace declarations, prefixed
+			switch rapid.IntRange(0, 3).Draw(t, "configRoot") {
+			case 0:
+				op.Config = `<config xmlns:xc="urn:ietf:params:xml:ns:netconf:base:1.0">` + genFragment(t) + "</config>"
+			case 1:
+				op.Config = `<nc:config xmlns:nc="urn:ietf:params:xml:ns:netconf:base:1.0">` + genFragment(t) + "</nc:config>"
+			default:
+				op.Config = "<config>" + genFragment(t) + "</config>"
+			}
 		case "copy-config":
 			op.Source = genStore(t)
 			op.Target = genStore(t)
